@@ -30,7 +30,7 @@ pub fn run_case_c07(case: &Case, prog: &Prog, mode: &Mode) -> (CaseReport, Value
     let kind = prog.kind();
     let mut digests = Vec::new();
     for bad in plans {
-        let plan = Plan { bad, panic_at: None, gates: vec![] };
+        let plan = Plan { bad, panic_at: None, gates: vec![], deep: false };
         let rr = run_plain(case, &plan);
         rep.runs += 1;
         let out_s = match (&rr.outcome, &rr.panic_msg) {
@@ -83,10 +83,22 @@ pub fn run_case_c07(case: &Case, prog: &Prog, mode: &Mode) -> (CaseReport, Value
     if kind.is_async {
         spawn_sig = json!(asyncx::first_poll_arrivals(case, prog));
     }
+    // stack headroom: the all-succeed plan once more, every callback using 256 KiB of stack, in a
+    // child process (an overflow kills the process); plain and thread-spawning macros must agree
+    let mut deep = Value::Null;
+    if !kind.is_async {
+        let plan = Plan { bad: vec![], panic_at: None, gates: vec![], deep: true };
+        deep = match run_child(case.idx, &plan, Duration::from_secs(30)) {
+            Ok(v) => json!(format!("completed panicked={}", v["panicked"])),
+            Err(e) if e == "timeout" => json!("timeout"),
+            Err(_) => json!("crashed"),
+        };
+        rep.runs += 1;
+    }
     if rep.samples.is_empty() && !digests.is_empty() {
         rep.samples.push(json!({"plans": digests.len(), "first": digests[0]}));
     }
-    (rep, json!({"digests": digests, "spawn_sig": spawn_sig}))
+    (rep, json!({"digests": digests, "spawn_sig": spawn_sig, "deep": deep}))
 }
 
 // ------------------------------------------------------------------------------- C18
